@@ -1005,3 +1005,97 @@ func aliased(k string) {
 	ao.key, ao.omit = k, true
 }
 `
+
+// ---------------------------------------------------------------- E-ifaceeq
+
+// matchIfaceEq: `a == b` (or !=) with both operands of interface type panics when the two dynamic types
+// are equal and not comparable ([]any, map[string]any). Data values are `any`, so a direct comparison of two
+// data values is a panic waiting for a container operand; the evaluator's helper that guards by kind is the
+// only place allowed to compare.
+func matchIfaceEq(files []*ast.File, info *types.Info) (sites []synSite, examined int) {
+	isData := func(e ast.Expr) bool {
+		tv, ok := info.Types[e]
+		if !ok || tv.Type == nil || tv.IsNil() || tv.Value != nil {
+			return false
+		}
+		it, ok := tv.Type.Underlying().(*types.Interface)
+		return ok && it.NumMethods() == 0 // any: values of the data, not Frag / error / Node interfaces
+	}
+	for _, f := range files {
+		for _, d := range f.Decls {
+			fd, ok := d.(*ast.FuncDecl)
+			if !ok || fd.Body == nil {
+				continue
+			}
+			// guarded: inside a type switch or comma-ok assertion on one of the operands nothing is known
+			// syntactically, so the rule accepts a comparison only where both operands were narrowed away
+			// (then they are no longer of type any); a function that contains a comparison of two any values
+			// must be listed as a guarded helper
+			ast.Inspect(fd.Body, func(n ast.Node) bool {
+				be, ok := n.(*ast.BinaryExpr)
+				if !ok || (be.Op != token.EQL && be.Op != token.NEQ) {
+					return true
+				}
+				if !isData(be.X) || !isData(be.Y) {
+					return true
+				}
+				examined++
+				name := enclosingFuncName(f, fd.Pos())
+				sites = append(sites, synSite{pos: be.Pos(), file: f, key: fmt.Sprintf("%s:iface-compare:%s", name, types.ExprString(be)),
+					msg: fmt.Sprintf("%s compares two values of type any with %s (%s): when both hold a slice or a map the comparison panics (comparing uncomparable type)", name, be.Op, types.ExprString(be))})
+				return true
+			})
+		}
+	}
+	return
+}
+
+const fixtureIfaceEq = `package fixture
+
+func in(left any, list []any) bool {
+	for _, ev := range list {
+		if left == ev {
+			return true
+		}
+	}
+	return left == nil
+}
+`
+
+// ifaceEqAccepted: comparisons of two any values that were read: the function establishes comparability first.
+var ifaceEqAccepted = map[string]string{
+	"jp.same:iface-compare:left == right": "the helper itself: it returns false before the comparison when the left operand's dynamic type is not comparable (operands of different dynamic types compare false without a panic); M-truth evaluates it cell by cell",
+}
+
+func ruleIfaceEq(prog *Program, rep *Report, rels ...string) {
+	rep.Rules = append(rep.Rules, "E-ifaceeq: no == or != has two operands of static type any (nil and constants excepted) in "+strings.Join(rels, ", ")+", except in the listed helpers that establish comparability first: a comparison of two data values panics when both are slices or both are maps")
+	ff, finfo, _, err := loadFixture(fixtureIfaceEq)
+	if err != nil {
+		rep.Errorf("E-ifaceeq: fixture does not type-check: %v", err)
+		return
+	}
+	if fs, _ := matchIfaceEq(ff, finfo); len(fs) != 1 {
+		rep.Errorf("E-ifaceeq: the positive-control fixture produced %d matches (want 1)", len(fs))
+		return
+	}
+	rep.Discharge("E-ifaceeq", "positive-control", "checker/rules_r7.go", "fixture matched once")
+	for _, rel := range rels {
+		pk := prog.Pkg(rel)
+		if pk == nil {
+			rep.Errorf("E-ifaceeq: package %s not loaded", rel)
+			continue
+		}
+		sites, _ := matchIfaceEq(pk.Syntax, pk.TypesInfo)
+		acc := 0
+		for _, s := range sites {
+			if why, ok := ifaceEqAccepted[rel+"."+s.key]; ok {
+				rep.Discharge("E-ifaceeq", rel+"."+s.key, prog.Pos(s.pos), "accepted (read): "+why)
+				acc++
+				continue
+			}
+			rep.Violate(Finding{Rule: "E-ifaceeq", Key: rel + "." + s.key, Pos: prog.Pos(s.pos), Msg: s.msg})
+		}
+		rep.Eval(len(sites))
+		rep.Discharge("E-ifaceeq", rel, rel, fmt.Sprintf("%d comparisons of two any values, %d accepted", len(sites), acc))
+	}
+}
